@@ -41,7 +41,7 @@ chk.assumptions = [
     'rounding) away from the tolerance sphere of every atom (asserted by the harness; a closer position is a harness error)',
     'positions are passed as float arrays / float lists (System.dvect treats integer arrays as indices - documented)',
     'old_id of a NEW atom (interstitial, second dumbbell atom) is not specified unless requested with old_id=; the '
-    'model adopts the observed value and then requires it to be carried unchanged',
+    'model adopts the observed value, requires that it differs from the original index of every surviving atom (otherwise old_id would not identify survivors) and that it is carried unchanged afterwards',
     'a vacancy in a one-atom system is not enumerated (atomman cannot represent a System without atoms)',
     'refusal = ValueError / AssertionError / TypeError / IndexError raised before anything is returned',
     'cells are mildly triclinic so that the model\'s image search over shifts in [-3,3]^3 is exhaustive',
@@ -692,6 +692,12 @@ def check(hist, st):
                 chk.note('old_id-survivors-verified')
         elif r['old_id'] is None or int(o) != r['old_id']:
             bad('old_id-requested-' + tag, 'atom %d: old_id %r, requested/expected %r; %s' % (jn, o.tolist(), r['old_id'], desc))
+    # the old-index property must IDENTIFY each surviving atom: no new atom may carry the index of a survivor
+    surv = {int(r['orig']) for r in recs if r['orig'] is not None}
+    for jn, r in enumerate(recs):
+        if r['orig'] is None and int(view['old_id'][jn]) in surv:
+            bad('old_id-new-atom-collides-' + tag, 'new atom %d carries old_id %d, which is the original index of a surviving atom; %s'
+                % (jn, int(view['old_id'][jn]), desc))
     if len(hist) >= 3:
         chk.note('composed-steps-verified')
     # ---- the result shares no storage with the input: perturb the result, re-read the input
